@@ -23,8 +23,14 @@
   inline_real_eq_runtime_partial
   guard_leaves_only_cyclic
   inline_seq_eq_runtime_partial
+  failed_render_keeps_cache_sound
+  inline_seq_after_failure_partial
+  runtime_eq_spec_partial
+  inline_eq_spec_partial
+  spec_restart_witness
 -/
 import Genshi.Lemmas.InclErase
+import Genshi.Lemmas.InclSpec
 import Genshi.Lemmas.InclGuard
 import Genshi.Gen.Incl
 namespace Genshi.Props.C11
@@ -140,6 +146,126 @@ theorem inline_seq_eq_runtime_partial (T : List Name) (files : Files) (hH : inH 
       simp only [renderSeq]
       rw [h.1, ih _ h.2, hrt]
   exact key qs [] (by intro n b h; simp at h)
+
+/-- replaying any list of loads keeps the cache a cache of prepared forms -/
+theorem replayLoads_inv {T : List Name} {files : Files} (hH : inH T files = true) :
+    ∀ (ls : List Load) (c : Cache), CacheInv T files c → CacheInv T files (replayLoads files c ls)
+  | [], c, hc => hc
+  | l :: ls, c, hc => by
+    have hl := loadOK_of_inH hH l.1 l.2 c hc
+    simp only [replayLoads]
+    cases hraw : loadRaw files l.1 l.2 with
+    | fuel => simp [hraw] at hl
+    | err e =>
+      simp only [hraw] at hl
+      rw [hl]
+      exact replayLoads_inv hH ls c hc
+    | ok body =>
+      simp only [hraw] at hl
+      obtain ⟨body', c', hli, _, hc'⟩ := hl
+      rw [hli]
+      exact replayLoads_inv hH ls c' hc'
+
+/-- **the loader after a failed render.**  Whatever the render did before it raised (an undefined name, a
+missing include without fallback, the recursion limit): the templates it loaded and prepared on the way
+stay in the loader, and every one of them is a prepared form of its file — the invariant under which
+`renderOn_eq` answers the next request like run-time mode -/
+theorem failed_render_keeps_cache_sound {T : List Name} {files : Files} (hH : inH T files = true) (fuel : Nat)
+    (c : Cache) (hc : CacheInv T files c) (q : Req) :
+    CacheInv T files (cacheAfterFail .inlineM files fuel c q) := by
+  obtain ⟨entry, kind, data⟩ := q
+  have hl := loadOK_of_inH hH entry kind c hc
+  simp only [cacheAfterFail, loadT]
+  cases hraw : loadRaw files entry kind with
+  | fuel => simp [hraw] at hl
+  | err e =>
+    simp only [hraw] at hl
+    simp [hl, hc]
+  | ok body =>
+    simp only [hraw] at hl
+    obtain ⟨body', c', hli, _, hc'⟩ := hl
+    simp only [hli, Res.map_ok]
+    exact replayLoads_inv hH _ c' hc'
+
+theorem renderOnF_eq {T : List Name} {files : Files} (hH : inH T files = true) (fuel : Nat)
+    (c : Cache) (hc : CacheInv T files c) (q : Req) :
+    (renderOnF .inlineM files fuel c q).1 = (renderOn .runtime files fuel [] q).1 ∧
+    CacheInv T files (renderOnF .inlineM files fuel c q).2 := by
+  have h := renderOn_eq hH fuel c hc q
+  have hf := failed_render_keeps_cache_sound hH fuel c hc q
+  unfold renderOnF
+  cases hx : (renderOn .inlineM files fuel c q).1 with
+  | ok evs => exact ⟨by rw [← h.1, hx], h.2⟩
+  | err e => exact ⟨by rw [← h.1, hx], hf⟩
+  | fuel => exact ⟨by rw [← h.1, hx], hf⟩
+
+/-
+  Full statement (false, see the witnesses): for every file set, any number of renders through one loader,
+  failed ones included, answer in inline mode like in run-time mode.  Proved under `inH`.
+-/
+/-- any number of renders through one loader, **failed ones included**: the loader keeps what a failed
+render had loaded and prepared (`renderSeqF`), and inline mode still answers every later request like
+run-time mode does -/
+theorem inline_seq_after_failure_partial (T : List Name) (files : Files) (hH : inH T files = true)
+    (fuel : Nat) (qs : List Req) :
+    (renderSeqF .inlineM files fuel [] qs).map (·.1) = renderSeq .runtime files fuel [] qs := by
+  have hrt : ∀ q, (renderOn .runtime files fuel [] q).2 = [] := by
+    intro q
+    obtain ⟨entry, kind, data⟩ := q
+    simp only [renderOn, loadT]
+    cases hraw : loadRaw files entry kind with
+    | fuel => rfl
+    | err e => rfl
+    | ok body =>
+      simp only [Res.map_ok, Res.bind_ok]
+      have := render_keeps_cache_runtime files fuel (.ofKind kind) body { St.init data with cache := [] }
+      cases hx : renderL .runtime files (render .runtime files fuel) (Rng.ofKind kind) body { St.init data with cache := [] } with
+      | fuel => rfl
+      | err e => rfl
+      | ok r => simp only; rw [hx] at this; exact this
+  have key : ∀ (qs : List Req) (c : Cache), CacheInv T files c →
+      (renderSeqF .inlineM files fuel c qs).map (·.1) = renderSeq .runtime files fuel [] qs := by
+    intro qs
+    induction qs with
+    | nil => intro c _; rfl
+    | cons q qs ih =>
+      intro c hc
+      have h := renderOnF_eq hH fuel c hc q
+      simp only [renderSeqF, renderSeq, List.map_cons]
+      rw [h.1, ih _ h.2, hrt]
+  exact key qs [] (by intro n b h; simp at h)
+
+/-
+  Full statement (false, `spec_restart_witness`): for every file set, entry, data and fuel
+      renderRuntime files entry kind data fuel = renderSpec files entry kind data fuel
+  — run-time includes produce what the property's own words describe: the target's content in place of
+  the include, in the includer's context.  Proved for file sets in which no match template is defined
+  (`noMtFiles`): there the window of match templates, the one thing a run-time include restarts and a
+  replacement in place does not, cannot matter.  Missing for file sets with match templates: the
+  simulation of `simL` (zones, `Coup`) redone for spec-vs-run-time, under `inH` strengthened by "no
+  expression-valued include inside a zone" (both loader modes restart the match filter there, a
+  replacement in place does not: `spec_restart_witness`).
+-/
+/-- **an include stands for its target** (no match templates in the file set): the run-time mode renders
+    exactly what the specification evaluator renders — same events, same error, both out of fuel -/
+theorem runtime_eq_spec_partial (files : Files) (hF : noMtFiles files = true)
+    (entry : Name) (kind : Kind) (data : List (Name × Value)) (fuel : Nat) :
+    renderRuntime files entry kind data fuel = renderSpec files entry kind data fuel := by
+  simp only [renderRuntime, renderSpec, loadT]
+  cases hraw : loadRaw files entry kind with
+  | fuel => rfl
+  | err e => rfl
+  | ok body =>
+    simp only [Res.map_ok, Res.bind_ok]
+    have h0 : OkSt (St.init data) := ⟨rfl, rfl, by intro p hp; simp [St.init] at hp⟩
+    have := specL_sr hF (spec_sr hF fuel) body (.ofKind kind) (.ofKind kind) (St.init data) (loadRaw_noMt hF hraw) h0
+    rw [this.1]
+
+/-- … and so does the inline mode, inside the hypothesis of `inline_eq_runtime_partial` -/
+theorem inline_eq_spec_partial (T : List Name) (files : Files) (hH : inH T files = true) (hF : noMtFiles files = true)
+    (entry : Name) (kind : Kind) (data : List (Name × Value)) (fuel : Nat) :
+    renderInline files entry kind data fuel = renderSpec files entry kind data fuel := by
+  rw [inline_eq_runtime_partial T files hH, runtime_eq_spec_partial files hF]
 
 /-- recursive and mutually recursive includes terminate under the same conditions in both modes:
 one mode runs out of any amount of fuel iff the other does, and one mode reaches a result with
@@ -466,6 +592,70 @@ example : renderInlineReal exFiles nA .markup exData 2 = renderRuntime exFiles n
 fragment (no matchable elements, no macro calls) and a text template are included by name — inside
 the hypothesis although the includes sit in a zone -/
 def nLeaf : Name := ['l', 'e', 'a', 'f', '.', 'h', 't', 'm', 'l']
+/-- `a.html` = `<d><xi:include href="${h0}"/>${u0}</d>` (fails when `u0` is undefined, after the include was
+    loaded), `b.html` = `<e><xi:include href="c.html"/></e>`, `c.html` = `C` -/
+def exFail : Files :=
+  [[(nA, ⟨.markup, some [.elem ['d'] [.include (.dyn [.var ['h', '0']]) .markup false [] nA, .var ['u', '0']]]⟩),
+    (nB, ⟨.markup, some [.elem ['e'] [.include (.static ['c', '.', 'h', 't', 'm', 'l']) .markup false [] nB]]⟩),
+    (['c', '.', 'h', 't', 'm', 'l'], ⟨.markup, some [.text ['C']]⟩)]]
+
+def exFailReqs : List Req :=
+  [(nA, .markup, [(['h', '0'], .str nB)]),            -- raises UndefinedError after b.html (and c.html) were loaded
+   (nB, .markup, []),                                 -- served from what the failed render left behind
+   (nA, .markup, [(['h', '0'], .str nB), (['u', '0'], .str ['!'])])]
+
+example : inH (matchTags exFail) exFail = true := by decide +kernel
+/-- the failed render leaves `a.html`, `b.html` and (inlined into `b.html`) `c.html` prepared in the loader;
+    the model that forgets them (`renderSeq`) and the faithful one answer alike, as the theorem says -/
+example : (renderSeqF .inlineM exFail 6 [] exFailReqs).map (fun x => (x.1, x.2.map (·.1))) =
+    [(.err .undefined, [nB, ['c', '.', 'h', 't', 'm', 'l'], nA]),
+     (.ok [.start ['e'], .text ['C'], .stop ['e']], [nB, ['c', '.', 'h', 't', 'm', 'l'], nA]),
+     (.ok [.start ['d'], .start ['e'], .text ['C'], .stop ['e'], .text ['!'], .stop ['d']],
+      [nB, ['c', '.', 'h', 't', 'm', 'l'], nA])] := by decide +kernel
+example : (renderOn .inlineM exFail 6 [] (nA, .markup, [(['h', '0'], .str nB)])).2 = [] := by decide +kernel
+
+/-- `a.html` = `<py:match path="x">[${select('*|text()')}]</py:match><py:match path="y">Y<y/></py:match>
+    <x><xi:include href="${h0}"/></x>`, `b.html` = `<y/>`.  The include sits in the content of a matched element:
+    that content is produced under the window `[0, 1)` and then spliced into the body of template 0, which is
+    open to template 1.  Replaced in place, `<y/>` reaches the body untouched and template 1 rewrites it once.
+    Loaded at run time, `b.html` runs through its own match filter first (template 1 applies: `Y<y/>`), and
+    the `<y/>` it leaves is rewritten once more in the body. -/
+def exRestart : Files :=
+  [[(nA, ⟨.markup, some [.matchT ['x'] [.text ['['], .select, .text [']']],
+                          .matchT ['y'] [.text ['Y'], .elem ['y'] []],
+                          .elem ['x'] [.include (.dyn [.var ['h', '0']]) .markup false [] nA]]⟩),
+    (nB, ⟨.markup, some [.elem ['y'] []]⟩)]]
+
+/-- With match templates the full statement `runtime = spec` is false — inside `inH`, where both loader modes
+    agree with each other: an expression-valued include in a zone restarts the match filter in both modes. -/
+theorem spec_restart_witness :
+    renderRuntime exRestart nA .markup [(['h', '0'], .str nB)] 6
+      = .ok [.text ['['], .text ['Y'], .text ['Y'], .start ['y'], .stop ['y'], .text [']']] ∧
+    renderSpec exRestart nA .markup [(['h', '0'], .str nB)] 6
+      = .ok [.text ['['], .text ['Y'], .start ['y'], .stop ['y'], .text [']']] ∧
+    renderInline exRestart nA .markup [(['h', '0'], .str nB)] 6
+      = renderRuntime exRestart nA .markup [(['h', '0'], .str nB)] 6 ∧
+    inH (matchTags exRestart) exRestart = true := by decide +kernel
+
+/-- non-vacuity of `runtime_eq_spec_partial`: a file set without match templates (nested and recursive
+    includes, a macro crossing the file boundary, fallback, text include, expression-valued href) -/
+def exSpec : Files :=
+  [[(nA, ⟨.markup, some [.elem ['d'] [
+        .include (.static nSubC) .markup false [] nA,
+        .call ['m', '0'],
+        .include (.static nNope) .markup true [.text ['F'], .var ['s', '0']] nA,
+        .include (.static nT) .text false [] nA,
+        .include (.dyn [.var ['h', '0']]) .markup true [] nA]]⟩),
+    (nSubC, ⟨.markup, some [.elem ['e'] [
+        .defn ['m', '0'] [.text ['M'], .var ['s', '0']],
+        .loop ['t', '0'] ['t', '0'] [.include (.static ['.', '.', '/', 'a', '.', 'h', 't', 'm', 'l']) .markup false [] nSubC]]]⟩),
+    (nT, ⟨.text, some [.text ['T'], .include (.static nNope) .text true [] nT]⟩)]]
+
+example : noMtFiles exSpec = true ∧ inH (matchTags exSpec) exSpec = true := by decide +kernel
+example : renderSpec exSpec nA .markup exData 9 = renderRuntime exSpec nA .markup exData 9 ∧
+    (match renderSpec exSpec nA .markup exData 9 with | .ok evs => evs.length | _ => 0) = 18 ∧
+    renderSpec exSpec nA .markup exData 2 = .fuel := by decide +kernel
+
 def exLayout : Files :=
   [[(nA, ⟨.markup, some [.elem ['d'] [
         .matchT ['x'] [.elem ['w'] [.select]],
